@@ -13,15 +13,6 @@ Definition sym_of (eb : ebase) (a : atom) : string :=
   else if (Z.eqb (az a) 1 && Z.eqb (aa a) 3)%bool then "T"%string
   else match eb_symbol eb (az a) with Some s => s | None => "?"%string end.
 
-(* '%4d' % n for n >= 0 *)
-Definition pad4 (n : Z) : string :=
-  let s := Z_to_string n in
-  (repeat_char " "%char (4 - String.length s) ++ s)%string.
-
-Definition hill_key_of (eb : ebase) (a : atom) : string :=
-  let s := sym_of eb a in
-  ((if (String.eqb s "C" || String.eqb s "H")%bool then "0" else "1") ++ s ++ pad4 (aa a))%string.
-
 Definition q_of (r : res Q) : Q := match r with Val q => q | _ => 0 end.
 
 Definition env_with (ot : option tbl) (od : option dens) : aenv :=
@@ -30,7 +21,7 @@ Definition env_with (ot : option tbl) (od : option dens) : aenv :=
       mkEnv (fun a => q_of (mass_of t (az a) (aa a)) - inject_Z (aq a) * ME)
             (fun a => q_of (mass_of t (az a) 0) - inject_Z (aq a) * ME)
             (fun a => match density_of t d (az a) (aa a) with Val q => Some q | _ => None end)
-            (hill_key_of element_base)
+            (sym_of element_base)
   | _, _ => mkEnv (fun _ => 0) (fun _ => 0) (fun _ => None) (fun _ => ""%string)
   end.
 Definition the_env : aenv := env_with the_tbl the_dens.
